@@ -38,6 +38,16 @@ RULE = ("component ops: one call of HaarConv / FindLocalPeaks / FDRThres / Unify
         "writer is judged, the written .cns must read back equal to it and the same call through the API must give the "
         "same segments. Besides the Lean clauses the cumulative `probes` of the first segment must be within 5 of the "
         "step. Not generated: integer-typed / all-1 weight column (finding C11-cli-integer-weight-column). "
+        "Extension ops (weighted path): HaarConv(step, W, h) on noise-free steps with positive weights (property range, "
+        "dyadic, all ones, wide 0.05..4, spiky 0.01/50; h 1..32 incl. non-powers of two; the half-window just fitting "
+        "(h = b, b + h = n) and, one case in six, not fitting) against the model AND the closed form of theorem "
+        "haarConvW_ideal_step (clauses weighted_ideal_response, weighted_response_zero_outside_reach, "
+        "weighted_response_at_step_is_the_step on the real output); haarSeg(step, q, W) on noise-free steps of height >= "
+        "0.585 with >= 32 bins a side against the model haarSegW (exact arithmetic) and the step clauses; the elements "
+        "the real HaarConv loop reads at every position (recording sequences; unweighted and weighted; n 1..90, h up to "
+        "and beyond n) against the model's hiIdx / loIdx and the source expressions re-read by the translator; the "
+        "arguments hmm_get_model really hands to pomegranate's from_matrix against the generated start vector / "
+        "transition matrix. "
         "SEARCH, NOT PROOF: a failing profile is a real counterexample (VIOLATION with the "
         "profile as replay), a passing run proves nothing about unseen profiles. non-trivial = the op's output is non-empty / has a breakpoint; distinct by hash")
 EXHAUSTIVE = {"quick": False, "thorough": False}
@@ -49,6 +59,13 @@ ASSUMPTIONS = [
     "FDRThres p-values (scipy norm.cdf) and the doubles sqrt(2h), sqrt(h/2) are inputs of the model; the weighted "
     "HaarConv and the level loop on non-dyadic data are tied at 1e-9 with the real per-level convolutions as input",
     "rawI (non-stationary variance compensation, PulseConv) is never passed by cnvkit and is outside the model",
+    "weighted theorems (Props/C11W): exact arithmetic, every weight > 0, half-window fitting on both sides (b >= 32, "
+    "n - b >= 32 for haarSeg); in floats the weighted quotients carry rounding noise where the exact response is 0, so "
+    "the real code meets FDRThres with several tiny peaks: the closed form is tied to the real HaarConv at 1e-9, the "
+    "whole weighted haarSeg on steps of at least the property's smallest height (0.585)",
+    "initial HMM (Props/C11Hmm): obligations on the generated start vector / transition matrix; no clause of the "
+    "property speaks about them, so a change there is reported through the broken obligation (and the oracle run), "
+    "never as a spec failure of its own",
     "signals are non-empty and finite; weights, when given, have the length of the signal",
 ]
 TRUSTED_EXTRA = [
@@ -56,6 +73,8 @@ TRUSTED_EXTRA = [
     "math.sqrt (the normalisation constants are inputs; the driver checks norm^2 = 2h resp. h/2 to 1e-9)",
     "IEEE-754 binary64 division / addition / multiplication are correctly rounded (mirrored by `fl64`, itself "
     "tied to Python's Fraction->float conversion)",
+    "harness/exprtrans.py loop-body reading (one iteration of the HaarConv loop; element values are inputs, element "
+    "indices are tied separately) and harness/extractors/hmm.py (rational evaluation of three numpy expressions)",
     "pomegranate HiddenMarkovModel fit/predict, cnvlib.smoothing.savgol, guess_window_size, drop_outliers: black "
     "boxes of the oracle run; by_arm / squash_by_groups / transfer_fields glue: property C03/C14 packages",
 ]
@@ -317,6 +336,84 @@ def gen_haarseg(rng, k):
     return out
 
 
+# ---- extension (round 4): the weighted path on noise-free steps, window-edge indices, the initial HMM ----------
+
+
+def _pos_weights(rng, n, kind=None):
+    """strictly positive weights: the property's range [0.5, 1] (float / dyadic / all ones) and, because the theorems
+    hold for ANY positive weights, wide and spiky ones"""
+    kind = kind or rng.choice(["uniform", "uniform", "dyadic", "ones", "wide", "spiky"])
+    if kind == "uniform":
+        return [rng.uniform(0.5, 1.0) for _ in range(n)], kind
+    if kind == "dyadic":
+        return [rng.randint(4, 8) / 8 for _ in range(n)], kind
+    if kind == "ones":
+        return [1.0] * n, kind
+    if kind == "wide":
+        return [rng.uniform(0.05, 4.0) for _ in range(n)], kind
+    return [rng.choice([1.0, 1.0, 1.0, 0.01, 50.0]) for _ in range(n)], kind
+
+
+def _step_levels(rng, min_abs=0.0):
+    if rng.random() < 0.6:
+        step = rng.choice([-1.0, 0.585, 1.0])
+        return (0.0, step) if rng.random() < 0.5 else (step, 0.0)
+    lo = _dy(rng, -2, 2, 3)
+    d = rng.choice([-1, 1]) * rng.randint(1, 24) / 8
+    while abs(d) < min_abs:
+        d = rng.choice([-1, 1]) * rng.randint(1, 24) / 8
+    return lo, lo + d
+
+
+def gen_conv_w_step(rng, k):
+    """HaarConv(step, W, h) on noise-free steps with positive weights: mostly inside the hypotheses of
+    `haarConvW_ideal_step` (h <= b, b + h <= n), one case in six outside (excluded point: the closed form is not
+    claimed there; model and real code must still agree)"""
+    out = []
+    for _ in range(k):
+        h = rng.choice([1, 2, 2, 4, 4, 8, 8, 16, 32, 3, 5])
+        if rng.random() < 0.84:
+            b = h + rng.choice([0, 0, 1, rng.randint(0, 40)])
+            n = b + h + rng.choice([0, 0, 1, rng.randint(0, 40)])
+            if n < b + 2:
+                n = b + 2
+            tag = "convw-step"
+        else:
+            n = rng.randint(max(2, h), 70)
+            b = rng.randint(1, n - 1)
+            tag = "convw-step" if (h <= b and b + h <= n) else "convw-step-outside"
+        lo, hi = _step_levels(rng)
+        w, kind = _pos_weights(rng, n)
+        out.append({"op": "haar_conv_w_step", "tag": f"{tag}:{kind}", "in": {"b": b, "n": n, "h": h, "lo": lo, "hi": hi, "w": w}})
+    return out
+
+
+def gen_haarseg_w(rng, k):
+    """haarSeg(step, q, W) as one_chrom calls it, on noise-free steps of at least the property's smallest height with
+    >= 32 bins a side (hypotheses of `haarSegW_ideal_step`); smaller steps are not generated: in floats the weighted
+    quotients leave rounding-noise peaks and FDRThres then keeps a level's largest peak only if its normalised
+    response reaches 1 (observation Z)"""
+    out = []
+    for _ in range(k):
+        b = rng.randint(32, 110)
+        n = b + rng.randint(32, 110)
+        lo, hi = _step_levels(rng, min_abs=0.585)
+        w, kind = _pos_weights(rng, n, rng.choice(["uniform", "uniform", "dyadic", "ones", "wide"]))
+        out.append({"op": "haar_seg_w", "tag": f"haarsegw-ideal:{kind}",
+                    "in": {"b": b, "n": n, "lo": lo, "hi": hi, "w": w, "q": rng.choice([0.0001, 0.0001, 0.001, 0.05])}})
+    return out
+
+
+def gen_idx(rng, k):
+    out = []
+    for _ in range(k):
+        n = rng.choice([1, 2, 3, 5, 8, rng.randint(2, 90)])
+        h = rng.choice([1, 2, 3, 4, 5, 8, 16, 32, n, max(1, n - 1), n + 1])
+        out.append({"op": "haar_idx", "tag": "idx" + ("-weighted" if rng.random() < 0.5 else "") + (":h>n" if h > n else ""),
+                    "in": {"n": n, "h": h}})
+    return out
+
+
 def _r6(v):
     """a value the 6-significant-digit table files carry exactly"""
     return float("%.6g" % v)
@@ -486,11 +583,19 @@ def gen_oracle(rng, k):
 
 def gen_cases(rng, tier):
     sizes = {
-        "quick": dict(fl=300, conv=500, peaks=600, fdr=400, unify=1200, segs=400, hs=300, oracle=450),
-        "thorough": dict(fl=3000, conv=4000, peaks=5000, fdr=3000, unify=6000, segs=3000, hs=2500, oracle=4000),
-        "search": dict(fl=100, conv=300, peaks=300, fdr=200, unify=300, segs=200, hs=300, oracle=300),
+        "quick": dict(fl=300, conv=500, peaks=600, fdr=400, unify=1200, segs=400, hs=300, oracle=450, cw=160, hsw=120, idx=60),
+        "thorough": dict(fl=3000, conv=4000, peaks=5000, fdr=3000, unify=6000, segs=3000, hs=2500, oracle=4000, cw=1200, hsw=900, idx=400),
+        "search": dict(fl=100, conv=300, peaks=300, fdr=200, unify=300, segs=200, hs=300, oracle=300, cw=150, hsw=100, idx=40),
     }[tier]
-    cases = [{"op": "consts", "tag": "consts", "in": {}}]
+    import os as _os
+    if _os.environ.get("VERIF_C11_ORACLE"):   # development switch (mutation self-tests on a loaded machine): fewer oracle profiles
+        sizes["oracle"] = int(_os.environ["VERIF_C11_ORACLE"])
+    cases = [{"op": "consts", "tag": "consts", "in": {}}, {"op": "hmm_init", "tag": "hmm-init", "in": {}}]
+    # the extension draws from its own generator (seeded from the run's), so that the cases of the earlier ops
+    # keep their numbering
+    import random as _random
+    xr = _random.Random(rng.getrandbits(64))
+    ext = gen_conv_w_step(xr, sizes["cw"]) + gen_haarseg_w(xr, sizes["hsw"]) + gen_idx(xr, sizes["idx"])
     cases += gen_fl64(rng, sizes["fl"])
     cases += gen_conv(rng, sizes["conv"])
     cases += gen_peaks(rng, sizes["peaks"])
@@ -501,7 +606,7 @@ def gen_cases(rng, tier):
     cases += gen_segs(rng, sizes["segs"])
     cases += gen_haarseg(rng, sizes["hs"])
     cases += gen_oracle(rng, sizes["oracle"])
-    return cases
+    return cases + ext
 
 
 def corpus():
@@ -525,6 +630,16 @@ def corpus():
     out.append({"op": "haar_seg", "tag": "corpus-Y-flat-weighted", "in": {
         "I": [0.585] * 14, "q": 0.0001, "exact": False, "flat_unclaimed": True,
         "w": [0.75, 1.0, 0.5, 0.625, 0.875, 1.0, 0.5, 0.75, 0.625, 1.0, 0.875, 0.5, 0.75, 1.0]}})
+    # boundary of the weighted ideal-step theorems: h = b = n - b; the lightest and the heaviest bin next to the step
+    for h in (1, 2, 32):
+        out.append({"op": "haar_conv_w_step", "tag": "corpus-convw-boundary", "in": {
+            "b": h, "n": 2 * h if h > 1 else 3, "h": h, "lo": 0.0, "hi": 0.585, "w": ([1.0, 0.5] * h)[: (2 * h if h > 1 else 3)] if h > 1 else [1.0, 0.5, 1.0]}})
+    out.append({"op": "haar_conv_w_step", "tag": "corpus-convw-spiky", "in": {
+        "b": 8, "n": 16, "h": 4, "lo": 0.0, "hi": -1.0, "w": [1.0] * 7 + [0.01, 50.0] + [1.0] * 7}})
+    out.append({"op": "haar_seg_w", "tag": "corpus-haarsegw-32", "in": {
+        "b": 32, "n": 64, "lo": 0.0, "hi": 0.585, "w": [0.5 + (i % 5) / 8 for i in range(64)], "q": 0.0001}})
+    out.append({"op": "haar_idx", "tag": "corpus-idx", "in": {"n": 10, "h": 4}})
+    out.append({"op": "haar_idx", "tag": "corpus-idx-weighted", "in": {"n": 9, "h": 9}})
     # boundary of the quantifier for the oracle: 100 bins a side, sd 0.1, smallest claimed step
     import random
     r = random.Random(11)
@@ -812,7 +927,93 @@ def run_impl(case):
         return res
     if op == "consts":
         return _observe_consts()
+    if op == "haar_conv_w_step":
+        sig = np.array([i["lo"]] * i["b"] + [i["hi"]] * (i["n"] - i["b"]), dtype=float)
+        return _fl(haar.HaarConv(sig, np.array(i["w"], dtype=float), i["h"]))
+    if op == "haar_seg_w":
+        I = np.array([i["lo"]] * i["b"] + [i["hi"]] * (i["n"] - i["b"]), dtype=float)
+        res = haar.haarSeg(I, i["q"], W=np.array(i["w"], dtype=float))
+        return {"table": {"start": [int(v) for v in res["start"]], "end": [int(v) for v in res["end"]],
+                          "size": [int(v) for v in res["size"]], "mean": _fl(res["mean"])}}
+    if op == "haar_idx":
+        return _observe_indices(i["n"], i["h"], "weighted" in case["tag"])
+    if op == "hmm_init":
+        return _observe_hmm_init()
     raise ValueError(op)
+
+
+class _Rec:
+    """a sequence that records which elements are read"""
+
+    def __init__(self, n, value):
+        self.n, self.value, self.log = n, value, []
+
+    def __len__(self):
+        return self.n
+
+    def __getitem__(self, i):
+        import numpy as np
+        if isinstance(i, slice):
+            return np.full(len(range(*i.indices(self.n))), self.value)
+        self.log.append(int(i))
+        return self.value
+
+
+def _observe_indices(n, h, weighted):
+    """the elements the real HaarConv loop reads at every k, as SETS (any order, any repetition): one row per
+    k = 1 .. n-1, the sorted distinct indices read from `signal` (and, weighted, from `weight`) during that iteration.
+    The reads are attributed to iterations by count (the same number of reads in every iteration); a loop that reads
+    in another pattern gives {"pattern": "unknown"}, which is not judged"""
+    from cnvlib.segmentation import haar
+    sig = _Rec(n, 0.0)
+    wt = _Rec(n, 1.0) if weighted else None
+    haar.HaarConv(sig, wt, h)
+    its = n - 1
+    logs = [sig.log] + ([wt.log] if weighted else [])
+    if h > n or its <= 0:
+        return {"rows": [], "reads": [len(l) for l in logs]}
+    if any(len(l) == 0 or len(l) % its for l in logs):
+        return {"pattern": "unknown", "reads": [len(l) for l in logs]}
+    rows = []
+    for j in range(its):
+        per = [sorted(set(l[j * (len(l) // its):(j + 1) * (len(l) // its)])) for l in logs]
+        if weighted and per[0] != per[1]:
+            return {"pattern": "unknown", "reads": [len(l) for l in logs]}
+        rows.append(per[0])
+    return {"rows": rows, "reads": [len(l) for l in logs]}
+
+
+def _observe_hmm_init():
+    """what hmm_get_model(..., 'hmm-germline') really hands to pomegranate's from_matrix"""
+    import random
+    import numpy as np
+    from cnvlib.segmentation import hmm
+    seen = {}
+    real = hmm.pom
+
+    class _HMM:
+        @staticmethod
+        def from_matrix(*a, **k):
+            seen["args"] = a
+            seen["kw"] = sorted(k)
+            return real.HiddenMarkovModel.from_matrix(*a, **k)
+
+    class _Pom:
+        HiddenMarkovModel = _HMM
+
+        def __getattr__(self, name):
+            return getattr(real, name)
+
+    r = random.Random(7)
+    chroms = [{"name": "chr1", "bins": [[1000 * k, 500, (0.0 if k < 120 else -1.0) + r.gauss(0, 0.05), 1.0] for k in range(240)]}]
+    hmm.pom = _Pom()
+    try:
+        hmm.hmm_get_model(_cna(chroms), "hmm-germline", None, 1)
+    finally:
+        hmm.pom = real
+    trans, dists, start = seen["args"][:3]
+    return {"start": _fl(np.asarray(start, dtype=float)), "trans": [_fl(row) for row in np.asarray(trans, dtype=float)],
+            "n_dists": len(dists), "kw": seen["kw"]}
 
 
 def _observe_consts():
@@ -936,6 +1137,21 @@ def to_line(case, impl):
                 "impl": None if err else [u["segs"] for u in units]}
     if op == "consts":
         return {"op": op, "in": {}, "impl": None if err else impl}
+    if op == "haar_conv_w_step":
+        inp = {"b": i["b"], "n": i["n"], "h": i["h"], "lo": frac(i["lo"]), "hi": frac(i["hi"]), "w": _q(i["w"]),
+               "fac": frac(math.sqrt(i["h"] / 2))}
+        bad = err or any(v == NAN for v in impl)
+        return {"op": op, "in": inp, "impl": None if err else (NAN if bad else impl)}
+    if op == "haar_seg_w":
+        I = [i["lo"]] * i["b"] + [i["hi"]] * (i["n"] - i["b"])
+        inp = {"I": _q(I), "w": _q(i["w"]), "q": frac(i["q"]), "facs": [frac(math.sqrt(2 ** lv / 2)) for lv in LEVELS],
+               "ideal": {"b": i["b"], "lo": frac(i["lo"]), "hi": frac(i["hi"])}}
+        return {"op": op, "in": inp, "impl": None if err else impl["table"]}
+    if op == "haar_idx":
+        rows = None if (err or "rows" not in impl) else impl["rows"]
+        return {"op": op, "in": i, "impl": rows}
+    if op == "hmm_init":
+        return {"op": op, "in": {}, "impl": None if err else {"start": impl["start"], "trans": impl["trans"]}}
     raise ValueError(op)
 
 
@@ -1022,6 +1238,48 @@ def judge(case, impl, resp):
             dis.append(f"fitted germline means {impl['germline_means']} generated {out['germline_means']}")
         if out["germline_frozen"] != [True, True, True]:
             spec.append("germline_means_frozen")
+    elif op == "haar_conv_w_step":
+        inside = i["h"] <= i["b"] and i["b"] + i["h"] <= i["n"]
+        if out is None or any(v == NAN for v in impl):
+            dis.append("weighted HaarConv on positive weights: zero weight sum in the model or non-finite real output")
+        else:
+            if not _same_list(impl, out, False):
+                k = next((k for k, (x, y) in enumerate(zip(impl, out)) if not _same(x, y, False)), -1)
+                dis.append(f"weighted HaarConv differs from the model at {k}")
+            if inside and [Fraction(x) for x in out] != [Fraction(x) for x in resp["closed"]]:
+                dis.append("model haarConvW is not the closed form stepRespW (theorem haarConvW_ideal_step)")
+    elif op == "haar_seg_w":
+        t = impl["table"]
+        if t["start"] != out["start"] or t["end"] != out["end"] or t["size"] != out["size"]:
+            dis.append(f"weighted haarSeg breakpoints model {out['start']} impl {t['start']}")
+        elif not _same_list(t["mean"], out["mean"], False):
+            dis.append("weighted haarSeg means differ")
+    elif op == "haar_idx":
+        if "rows" not in impl:
+            return spec, dis, "HaarConv reads its input in a pattern the index observer cannot attribute to positions"
+        rows = impl["rows"]
+        if i["h"] > i["n"]:
+            if rows != [] or any(impl["reads"]):
+                dis.append("HaarConv with stepHalfSize > signalSize entered its loop")
+        else:
+            if out != resp["src"]:
+                dis.append("model indices differ from the generated source expressions")
+            want = [sorted(set(r)) for r in out]
+            if rows != want:
+                k = next((k for k, (x, y) in enumerate(zip(rows, want)) if x != y), -1)
+                dis.append(f"HaarConv reads elements {rows[k] if 0 <= k < len(rows) else len(rows)} at k={k + 1}, "
+                           f"model {{highEnd, lowEnd, k-1}} = {want[k] if 0 <= k < len(want) else len(want)}")
+    elif op == "hmm_init":
+        tol = Fraction(1, 10 ** 12)
+        def close(a, b):
+            return abs(Fraction(a) - Fraction(b)) <= tol * max(1, abs(Fraction(b)))
+        if len(impl["start"]) != len(out["start"]) or not all(close(a, b) for a, b in zip(impl["start"], out["start"])):
+            dis.append(f"start probabilities handed to from_matrix {impl['start']} generated {out['start']}")
+        if len(impl["trans"]) != len(out["trans"]) or not all(
+                len(ra) == len(rb) and all(close(a, b) for a, b in zip(ra, rb)) for ra, rb in zip(impl["trans"], out["trans"])):
+            dis.append("transition matrix handed to from_matrix differs from the generated one")
+        if impl["n_dists"] != len(out["start"]):
+            dis.append("number of distributions differs from the number of states")
     return spec, dis, None
 
 
@@ -1041,6 +1299,10 @@ def nontrivial(case, impl, resp):
         return bool(i["peaks"])
     if op == "haar_seg":
         return len(impl["table"]["start"]) > 1 or "ideal" in i or "flat" in i
+    if op == "haar_conv_w_step":
+        return i["h"] <= i["b"] and i["b"] + i["h"] <= i["n"]
+    if op == "haar_idx":
+        return i["h"] <= i["n"] and i["n"] >= 2
     return True
 
 
